@@ -292,8 +292,10 @@ func TestVerifC17(t *testing.T) {
 		}
 		un := int64(cfg.TsUnhealthy)
 		type beat struct {
-			h  *c17host
-			at int64
+			h     *c17host
+			at    int64
+			avail uint64
+			final bool
 		}
 		var beats []beat
 		var neverBeaten []core.TractserverID
@@ -315,7 +317,9 @@ func TestVerifC17(t *testing.T) {
 			if h.last < base {
 				h.last = base
 			}
-			switch k := r.Intn(10); {
+			switch k := r.Intn(11); {
+			case k == 10:
+				h.avail = 0 // no space at all (e.g. every disk lost)
 			case k < 7:
 				h.avail = minAvailSpace + uint64(r.Range(2, 1<<20))
 			case k < 8:
@@ -324,19 +328,42 @@ func TestVerifC17(t *testing.T) {
 				h.avail = uint64(r.Intn(minAvailSpace))
 			}
 			if h.beaten {
-				beats = append(beats, beat{h, h.last})
+				// earlier reports of the same server (other loads, incl. all-zero ones): only the last one may count
+				if h.last > base && r.Chance(1, 2) {
+					for k := r.Range(1, 2); k > 0; k-- {
+						at := base + int64(r.Intn(int((h.last-base)/int64(time.Second))+1))*int64(time.Second)
+						if at >= h.last {
+							continue
+						}
+						var av uint64
+						if r.Chance(1, 2) {
+							av = minAvailSpace + uint64(r.Range(2, 1<<20))
+						}
+						beats = append(beats, beat{h, at, av, false})
+					}
+				}
+				beats = append(beats, beat{h, h.last, h.avail, true})
 			} else {
 				h.avail = 0
 				neverBeaten = append(neverBeaten, h.id)
 			}
 		}
 		sort.SliceStable(beats, func(i, j int) bool { return beats[i].at < beats[j].at })
+		var beatLog vw.L
 		if len(neverBeaten) > 0 {
 			mon.updateExpected(neverBeaten)
 		}
 		for _, b := range beats {
 			clock = b.at
-			mon.recvHeartbeat(b.h.id, nameOf(b.h.addr), core.TractserverLoad{AvailSpace: b.h.avail, TotalSpace: b.h.avail + 1000})
+			load := core.TractserverLoad{AvailSpace: b.avail, TotalSpace: b.avail + 1000, NumTracts: 3}
+			if b.avail == 0 && r.Chance(1, 2) {
+				load = core.TractserverLoad{} // a server that lost all its disks reports nothing at all
+			}
+			mon.recvHeartbeat(b.h.id, nameOf(b.h.addr), load)
+			beatLog.Add(b.h.addr, b.at, int64(b.avail))
+			if !b.final {
+				vw.Stat("beats.superseded", 1)
+			}
 		}
 		clock = now
 		// refresh status as of now (heartbeat handlers and status queries do this in production)
@@ -375,6 +402,15 @@ func TestVerifC17(t *testing.T) {
 			}
 			sort.Slice(got, func(i, j int) bool { return got[i] < got[j] })
 			tr.Obs(got...)
+			// op 6: the same candidate set predicted from the whole heartbeat history (last report wins)
+			{
+				var op6 vw.L
+				op6.Add(6)
+				op6.Add(cfgl...)
+				op6.Add(beatLog...)
+				tr.Op(op6...)
+				tr.Obs(got...)
+			}
 		}
 
 		// several allocations on this monitor state
